@@ -56,16 +56,19 @@ SegFails(S, st, seg) ==
                        "bind group " \o g \o " supplies bindings " \o ToString(BindingsOf(b.entries)) \o " but its layout has " \o ToString(layBindings))
               \cup UNION { LET r == GroupVars(S, g)[i]
                                m == { j \in DOMAIN b.entries : b.entries[j].binding = r.binding }
-                           IN Chk(Cardinality(m) = 1 /\ (\A j \in m : ResMatches(b.entries[j].res, TokenOf(st, g, r.name))),
+                           IN IF ~(g \in DOMAIN st.tok /\ \E k \in DOMAIN st.tok[g] : st.tok[g][k].name = r.name)
+                              THEN { "the resource struct of group " \o g \o " has no field named after the variable " \o r.name }
+                              ELSE
+                              Chk(Cardinality(m) = 1 /\ (\A j \in m : ResMatches(b.entries[j].res, TokenOf(st, g, r.name))),
                                   "the value given in field " \o r.name \o " of group " \o g \o " did not reach @binding(" \o r.binding \o ")")
                            : i \in DOMAIN GroupVars(S, g) }
     [] seg.op = "set" ->
-         Chk(Len(evs) = 1 /\ evs[1].ev = "rt.set_bind_group" /\ evs[1].index = g /\ evs[1].bg = st.bg[g] /\ evs[1].offsets = 0,
+         Chk(g \in DOMAIN st.bg /\ Len(evs) = 1 /\ evs[1].ev = "rt.set_bind_group" /\ evs[1].index = g /\ evs[1].bg = st.bg[g] /\ evs[1].offsets = 0,
              "BindGroup" \o g \o "::set did not bind that group at index " \o g \o " exactly once")
     [] seg.op \in {"set_bind_groups", "bind_groups_set"} ->
          LET order == GroupOrder(S) IN
          Chk(Len(evs) = Len(order)
-             /\ \A i \in DOMAIN evs : evs[i].ev = "rt.set_bind_group" /\ evs[i].pass = seg.arg /\ evs[i].index = order[i] /\ evs[i].bg = st.bg[order[i]] /\ evs[i].offsets = 0,
+             /\ \A i \in DOMAIN evs : evs[i].ev = "rt.set_bind_group" /\ evs[i].pass = seg.arg /\ evs[i].index = order[i] /\ order[i] \in DOMAIN st.bg /\ evs[i].bg = st.bg[order[i]] /\ evs[i].offsets = 0,
              seg.op \o " on a " \o seg.arg \o " pass did not bind every group at its own index exactly once, in index order")
     [] seg.op = "create_pipeline_layout" ->
          LET order == GroupOrder(S)
